@@ -131,7 +131,8 @@ def _verdict(k: Kind, cfg, buf: bytes, want) -> str:
 def op_c09_unit(a):
     k = KINDS[a["kind"]]
     cfg = a.get("cfg") or {}
-    raw = unhx(a["raw"])
+    unit = unhx(a["unit"])
+    raw = unit + unhx(a["suffix"])
     alt = unhx(a["alt"])
     obj = k.decode(raw, cfg)
     f = k.fields(obj)
@@ -152,12 +153,11 @@ def op_c09_unit(a):
     v = _verdict(k, cfg, raw[:m] + alt, f)
     if v != "same":
         raise SelfCheckFailure(what + f"the unit followed by other octets ({len(alt)}) decodes to '{v}', not to the unit")
-    packed = a.get("packed")
-    if packed is not None:
-        if n != packed:
-            raise SelfCheckFailure(what + f"packed unit of {packed} octets, decoded object reports {n}")
-        if out["prefix"] != "same" or out["extended"] != "same" or not out["inside"]:
-            raise SelfCheckFailure(what + "decode(packed + suffix) != decode(packed)")
+    # NOTE: no check here may depend on a premise carried in the case ("this unit is packed"): the
+    # shrinker could falsify the premise and produce a witness that also fails on correct code. Every
+    # check above holds for EVERY accepted buffer (theorems C09_<unit>). That a packed unit reports
+    # exactly its own length is enforced by the exact comparison of `len` with the model on
+    # expect="valid" cases, where it is a theorem (C09_packed_suffix), not a claim of the generator.
     return out
 
 
@@ -356,9 +356,7 @@ def suffixes(rng: random.Random, kind: str, cfg, raw: bytes) -> List[Tuple[str, 
 
 def unit_case(kind: str, cfg, raw: bytes, sfx: bytes, alt: bytes, tag: str, packed: bool = True,
               expect: str = "valid") -> Case:
-    op = {"op": "c09_unit", "kind": kind, "cfg": cfg, "raw": hx(raw + sfx), "alt": hx(alt)}
-    if packed:
-        op["packed"] = len(raw)
+    op = {"op": "c09_unit", "kind": kind, "cfg": cfg, "unit": hx(raw), "suffix": hx(sfx), "alt": hx(alt)}
     return Case(op, expect, tag=tag)
 
 
@@ -392,8 +390,8 @@ class C09(Prop):
 
     def nontrivial(self, c: Case) -> bool:
         o = c.op
-        if "raw" in o:
-            return o["raw"].strip("0") != ""
+        if "unit" in o:
+            return (o["unit"] + o["suffix"]).strip("0") != ""
         return any(r.strip("0") for r in o.get("raws", []))
 
     # ------------------------------------------------------------------------------------------
@@ -472,18 +470,18 @@ class C09(Prop):
                     k2 = rng.choice(["tlv", "lv", "sph", "req_id", "cds", "byte_field", "pfe", "cfdp_hdr", "entity_id",
                                      "fs_request", "fs_response", "fault_handler", "uslp_truncated", "uslp_primary"])
                     cfg = {"pfc": rng.choice([8, 16, 32, 64]), "width": rng.choice([1, 2, 4, 8]), "version": 12}
-                yield Case({"op": "c09_unit", "kind": k2, "cfg": cfg, "raw": hx(bytes(buf)), "alt": hx(rbytes(rng, rng.choice([1, 4, 9])))},
-                           "any", tag=f"any-{k2}-mode{min(mode, 4)}")
+                yield Case({"op": "c09_unit", "kind": k2, "cfg": cfg, "unit": hx(bytes(buf)), "suffix": "",
+                            "alt": hx(rbytes(rng, rng.choice([1, 4, 9])))}, "any", tag=f"any-{k2}-mode{min(mode, 4)}")
         # all 256 values of the length octet of TLV / LV against short buffers of every length
         for ln in range(0, 21, 1 if thorough else 3):
             body = rbytes(rng, ln)
             for v in range(256):
                 if not thorough and v > 24 and v % 16 not in (0, 15):
                     continue
-                yield Case({"op": "c09_unit", "kind": "lv", "cfg": {}, "raw": hx(bytes([v]) + body), "alt": "a5"}, "any",
-                           tag="lv-length-sweep")
-                yield Case({"op": "c09_unit", "kind": "tlv", "cfg": {}, "raw": hx(bytes([rng.choice(c08.TLV_TYPES), v]) + body),
-                            "alt": "a5"}, "any", tag="tlv-length-sweep")
+                yield Case({"op": "c09_unit", "kind": "lv", "cfg": {}, "unit": hx(bytes([v]) + body), "suffix": "",
+                            "alt": "a5"}, "any", tag="lv-length-sweep")
+                yield Case({"op": "c09_unit", "kind": "tlv", "cfg": {}, "unit": hx(bytes([rng.choice(c08.TLV_TYPES), v]) + body),
+                            "suffix": "", "alt": "a5"}, "any", tag="tlv-length-sweep")
         # filestore TLVs whose value field holds more than the names ("slack"): accepted, reported < declared
         for _ in range(200 if thorough else 40):
             resp = rng.random() < 0.5
@@ -493,8 +491,8 @@ class C09(Prop):
                 raw[1] += len(extra)
                 raw += extra
             yield Case({"op": "c09_unit", "kind": "fs_response" if resp else "fs_request", "cfg": {},
-                        "raw": hx(bytes(raw) + rbytes(rng, rng.choice([0, 1, 5]))), "alt": hx(rbytes(rng, 3))}, "any",
-                       tag="fs-slack")
+                        "unit": hx(bytes(raw)), "suffix": hx(rbytes(rng, rng.choice([0, 1, 5]))),
+                        "alt": hx(rbytes(rng, 3))}, "any", tag="fs-slack")
 
     def split_cases(self, rng, thorough) -> Iterator[Case]:
         reps = 60 if thorough else 14
